@@ -575,6 +575,24 @@ def size(node: ir.Node, op, state: OptimizerState) -> ReturnValue:
     return op.Constant(value_int=size)
 
 
+def _use_tensor_valued_constants(nodes: Sequence[ir.Node]) -> None:
+    """Spell `Constant(value_int=...)` / `Constant(value_ints=...)` as `Constant(value=<int64 tensor>)`.
+
+    The integer-valued attributes of Constant exist from opset 12 on; the evaluators use them
+    for the constants they create, which made the result invalid for models of older opsets.
+    """
+    for new_node in nodes:
+        if new_node.op_type != "Constant" or new_node.domain not in {"", "ai.onnx"}:
+            continue
+        for attr_name in ("value_int", "value_ints"):
+            attr = new_node.attributes.get(attr_name)
+            if attr is None or attr.is_ref():
+                continue
+            array = np.array(attr.value, dtype=np.int64)
+            del new_node.attributes[attr_name]
+            new_node.attributes["value"] = ir.AttrTensor("value", ir.tensor(array))
+
+
 def _move_initializers_to_graph(src: ir.Graph, dst: ir.Graph) -> None:
     """Move all initializers from src graph to dst graph, ensuring name uniqueness."""
     counter: dict[str, int] = {}
@@ -1248,7 +1266,11 @@ class FoldConstantsPass(ir.passes.InPlacePass):
                     f"Error during constant folding for node {node.name!r} ({node.domain}::{node.op_type})"
                 ) from e
             if output is not None:
+                if self._opset_imports.get("", 12) < 12:
+                    _use_tensor_valued_constants(context.nodes)
                 if isinstance(output, Replacement):
+                    if self._opset_imports.get("", 12) < 12:
+                        _use_tensor_valued_constants(output.new_nodes)
                     return output
                 if isinstance(output, ir.Value):
                     output = [output]
